@@ -1,5 +1,6 @@
 """C05 -- pure-Python and compiled quoters are interchangeable."""
-from .quoterlevel import run_quoter_level
+from ..core import MachineryFailure, load_records, run_driver, validate_shards
+from .quoterlevel import run_quoter_level, trace_cfg
 
 FINISH = dict(rule="R1: TLC enumerates all texts over CharCore/TokenCore/UnqTokens up to the stated length and checks "
                    "QuotePy = QuoteC (Level I); R2: every enumerated text is run through the real _quoting_py and "
@@ -8,3 +9,12 @@ FINISH = dict(rule="R1: TLC enumerates all texts over CharCore/TokenCore/UnqToke
 
 def run(out, sc, tier, seed):
     run_quoter_level(out, sc, tier, seed, "C05", unq=True)
+    # outputs crossing the compiled writer's 8 KiB growth boundaries (static buffer -> malloc -> realloc)
+    keep = 0.02 if tier == "quick" else 1.0
+    shards = run_driver(sc, "quote", {"mode": "boundary", "seed": seed, "keep": keep}, "boundary", nslices=12,
+                        shard_size=60)
+    results = validate_shards("TraceQuote", trace_cfg("C05"), shards, sc.work, heap="4g")
+    recs = load_records(shards)
+    if sum(r.records for r in results) != len(recs):
+        raise MachineryFailure("TLC consumed a different number of records than were produced")
+    out.add_trace_results("8KiB-boundaries", results, recs)
